@@ -59,7 +59,7 @@ Definition C10_mid_unknown_names_ignored_got_stmt : Prop :=
     let r1 := m_set_params m a kw in let r2 := m_set_params m a [] in
     snd r1 = snd r2 /\ (snd r1 <> None -> m_got (fst r1) = m_got (fst r2)).
 
-(** ** Look-ups that find nothing *)
+(** ** Look-ups *)
 Lemma unknown_path_spec res P : forall K, Forall (fun w => In w routing) P -> kw_unknown_path res (P ++ K) = true -> res K = false.
 Proof.
   induction P as [|w P IH]; intros K HP H.
@@ -67,11 +67,6 @@ Proof.
   - inversion HP as [|? ? Hw HP']; subst. cbn [app kw_unknown_path] in H. apply andb_true_iff in H. destruct H as [_ H].
     apply mem_In in Hw. rewrite Hw in H. apply (IH K HP' H).
 Qed.
-
-(** two keyword dicts are interchangeable for a leaf with the keys [Ks] when both bind none of
-    the names the leaf looks up *)
-Definition nohit (Ks : list path) (kwL : kwargs) : Prop :=
-  NoDup (map fst kwL) /\ forall k, In k Ks -> kw_get k kwL = None /\ kw_get (tl k) kwL = None.
 
 Lemma sel_params_key_in tri sel es e t : In e es -> sel e = true -> In t (map fst (edge_params tri e)) ->
   In (e_name e :: t) (map fst (sel_params tri sel es)).
@@ -89,61 +84,116 @@ Proof.
   exists (t, Param f kws). split; [exact Hin|]. cbn [fst snd dist_local]. unfold pre, prefix. apply in_map_iff.
   exists ([s], q). split; [reflexivity|]. apply in_map_iff. exists (s, q). split; [reflexivity | exact Hk].
 Qed.
-
 Lemma empty_reserved : In "" reserved.
 Proof. cbn. tauto. Qed.
-Lemma leaf_sel_nohit sel u a kwL : u_names_ok u = true -> nohit (map fst (u_sel_items sel u)) kwL ->
-  lift_graph u (graph_set_params_sel sel (u_graph u) a kwL) = lift_graph u (graph_set_params_sel sel (u_graph u) a []).
+
+(** two keyword dicts are interchangeable for a leaf with the keys [Ks] when they agree on the
+    names the leaf looks up: "arc_kind" and "kind" *)
+Definition agree (Ks : list path) (k1 k2 : kwargs) : Prop :=
+  NoDup (map fst k1) /\ NoDup (map fst k2) /\
+  forall k, In k Ks -> kw_get k k1 = kw_get k k2 /\ kw_get (tl k) k1 = kw_get (tl k) k2.
+
+Lemma leaf_sel_agree sel u a k1 k2 : u_names_ok u = true -> agree (map fst (u_sel_items sel u)) k1 k2 ->
+  lift_graph u (graph_set_params_sel sel (u_graph u) a k1) = lift_graph u (graph_set_params_sel sel (u_graph u) a k2).
 Proof.
-  intros Hn [Hnd Hk]. f_equal. unfold graph_set_params_sel. rewrite unflatten_nil.
-  destruct (unflatten_and_split kwL (map e_name (filter sel (g_edges (u_graph u))))) as [split glob] eqn:Hu.
-  rewrite (set_edges_for_ext (g_tri (u_graph u)) sel split glob [] [] (g_edges (u_graph u)) a); [reflexivity|].
+  intros Hn (Hnd1 & Hnd2 & Hk). f_equal. unfold graph_set_params_sel.
+  destruct (unflatten_and_split k1 (map e_name (filter sel (g_edges (u_graph u))))) as [s1 g1] eqn:Hu1.
+  destruct (unflatten_and_split k2 (map e_name (filter sel (g_edges (u_graph u))))) as [s2 g2] eqn:Hu2.
+  rewrite (set_edges_for_ext (g_tri (u_graph u)) sel s1 g1 s2 g2 (g_edges (u_graph u)) a); [reflexivity|].
   intros e t Hin Hs Ht.
-  rewrite (obj_kwargs_lookup kwL _ (e_name e) t split glob (reserved_not_filter u sel "" Hn empty_reserved) Hu)
-    by (apply in_map, filter_In; split; assumption).
+  assert (He : In (e_name e) (map e_name (filter sel (g_edges (u_graph u))))) by (apply in_map, filter_In; split; assumption).
+  rewrite (obj_kwargs_lookup k1 _ (e_name e) t s1 g1 (reserved_not_filter u sel "" Hn empty_reserved) Hu1 He).
+  rewrite (obj_kwargs_lookup k2 _ (e_name e) t s2 g2 (reserved_not_filter u sel "" Hn empty_reserved) Hu2 He).
   destruct (Hk (e_name e :: t) (sel_params_key_in _ sel _ e t Hin Hs Ht)) as [H1 H2]. cbn [tl] in H2.
-  rewrite eff_none by (rewrite kw_last_NoDup by exact Hnd; assumption). reflexivity.
+  unfold eff. rewrite !(kw_last_NoDup _ k1 Hnd1), !(kw_last_NoDup _ k2 Hnd2), H1, H2. reflexivity.
 Qed.
-Lemma leaf_dist_nohit u a kwL : u_names_ok u = true -> nohit (map fst (u_dist_items u)) kwL ->
-  u_set_distribution_params u a kwL = u_set_distribution_params u a [].
+Lemma leaf_dist_agree u a k1 k2 : u_names_ok u = true -> agree (map fst (u_dist_items u)) k1 k2 ->
+  u_set_distribution_params u a k1 = u_set_distribution_params u a k2.
 Proof.
-  intros Hn [Hnd Hk]. unfold u_set_distribution_params. rewrite unflatten_nil.
-  destruct (unflatten_and_split kwL (map fst (u_dists u))) as [split glob] eqn:Hu.
-  rewrite (set_dists_for_ext (u_maxt u) split glob [] [] (u_dists u) a); [reflexivity|].
+  intros Hn (Hnd1 & Hnd2 & Hk). unfold u_set_distribution_params.
+  destruct (unflatten_and_split k1 (map fst (u_dists u))) as [s1 g1] eqn:Hu1.
+  destruct (unflatten_and_split k2 (map fst (u_dists u))) as [s2 g2] eqn:Hu2.
+  rewrite (set_dists_for_ext (u_maxt u) s1 g1 s2 g2 (u_dists u) a); [reflexivity|].
   intros td s Hin Hs.
-  rewrite (obj_kwargs_lookup kwL _ (fst td) [s] split glob (in_reserved_not_tstage u "" Hn empty_reserved) Hu) by (apply in_map, Hin).
+  rewrite (obj_kwargs_lookup k1 _ (fst td) [s] s1 g1 (in_reserved_not_tstage u "" Hn empty_reserved) Hu1) by (apply in_map, Hin).
+  rewrite (obj_kwargs_lookup k2 _ (fst td) [s] s2 g2 (in_reserved_not_tstage u "" Hn empty_reserved) Hu2) by (apply in_map, Hin).
   destruct (Hk [fst td; s] (dists_items_key_in _ td s Hin Hs)) as [H1 H2]. cbn [tl] in H2.
-  rewrite eff_none by (rewrite kw_last_NoDup by exact Hnd; assumption). reflexivity.
+  unfold eff. rewrite !(kw_last_NoDup _ k1 Hnd1), !(kw_last_NoDup _ k2 Hnd2), H1, H2. reflexivity.
 Qed.
 
-Lemma nohit_nil Ks : nohit Ks [].
-Proof. split; [constructor|]. intros k _. split; reflexivity. Qed.
-
-(** ** The traversal: two keyword dicts that are both unknown to the model *)
+(** ** Two keyword dicts that bind the same values under every name the plumbing can resolve *)
 Section Irrelevant.
-  Variables (m0 : midline) (kw1 kw2 : kwargs).
+  Variable m0 : midline.
   Hypothesis Hsafe : m_names_ok m0 = true.
-  Hypothesis Hnd1 : NoDup (map fst kw1).
-  Hypothesis Hnd2 : NoDup (map fst kw2).
-  Hypothesis Hunk1 : mid_kw_unknown m0 kw1 = true.
-  Hypothesis Hunk2 : mid_kw_unknown m0 kw2 = true.
   Notation like := (SafeMidline.like_ei m0).
   Notation St := (SafeMidline.St m0).
+  Notation rt := (Forall (fun w : string => In w routing)).
 
-  Definition Un (kwL : kwargs) : Prop := forall K, mid_resolvable m0 K = true -> kw_get K kwL = None.
-  Lemma Fr_Un kw kwL : mid_kw_unknown m0 kw = true -> Fr kw kwL -> Un kwL.
+  Definition Rl (k1 k2 : kwargs) : Prop :=
+    NoDup (map fst k1) /\ NoDup (map fst k2) /\
+    forall P K, rt P -> mid_resolvable m0 K = true -> kw_get (P ++ K) k1 = kw_get (P ++ K) k2.
+
+  Lemma Rl_junk kw junk : NoDup (map fst (kw ++ junk)) -> mid_kw_unknown m0 junk = true -> Rl (kw ++ junk) kw.
   Proof.
-    intros Hunk [_ HF] K HK. destruct (kw_get K kwL) as [v|] eqn:E; [exfalso | reflexivity].
-    destruct (HF K v E) as (P & HP & Hg). unfold mid_kw_unknown in Hunk. rewrite forallb_forall in Hunk.
-    specialize (Hunk (P ++ K) (in_items_key _ _ _ (kw_get_Some_In _ _ _ Hg))).
+    intros Hnd Hunk. split; [exact Hnd|]. split; [rewrite map_app in Hnd; apply (NoDup_app_l _ _ Hnd)|].
+    intros P K HP HK. rewrite kw_get_app. destruct (kw_get (P ++ K) kw); [reflexivity|].
+    destruct (kw_get (P ++ K) junk) as [v|] eqn:E; [exfalso | reflexivity].
+    unfold mid_kw_unknown in Hunk. rewrite forallb_forall in Hunk.
+    specialize (Hunk (P ++ K) (in_items_key _ _ _ (kw_get_Some_In _ _ _ E))).
     rewrite (unknown_path_spec _ P K HP Hunk) in HK. discriminate.
   Qed.
-  (** a derived dict of either call *)
-  Definition Dv (kwL : kwargs) : Prop := NoDup (map fst kwL) /\ Un kwL.
-  Lemma Fr_Dv1 kwL : Fr kw1 kwL -> Dv kwL.
-  Proof. intros H. split; [apply H | apply (Fr_Un kw1 kwL Hunk1 H)]. Qed.
-  Lemma Fr_Dv2 kwL : Fr kw2 kwL -> Dv kwL.
-  Proof. intros H. split; [apply H | apply (Fr_Un kw2 kwL Hunk2 H)]. Qed.
+  Lemma Rl_obj X name k1 k2 s1 g1 s2 g2 : Rl k1 k2 -> (forall w, In w X -> In w routing) -> In name X ->
+    unflatten_and_split k1 X = (s1, g1) -> unflatten_and_split k2 X = (s2, g2) -> Rl (obj_kwargs name s1 g1) (obj_kwargs name s2 g2).
+  Proof.
+    intros (Hnd1 & Hnd2 & HR) HX Hin Hu1 Hu2.
+    assert (He : ~ In "" X) by (intros H; apply HX in H; cbn in H; intuition discriminate).
+    split; [apply (obj_kwargs_NoDup k1 X); exact Hu1|]. split; [apply (obj_kwargs_NoDup k2 X); exact Hu2|].
+    intros P K HP HK.
+    rewrite (obj_kwargs_lookup k1 X name (P ++ K) s1 g1 He Hu1 Hin), (obj_kwargs_lookup k2 X name (P ++ K) s2 g2 He Hu2 Hin).
+    unfold eff. rewrite !(kw_last_NoDup _ k1 Hnd1), !(kw_last_NoDup _ k2 Hnd2).
+    change (name :: P ++ K) with ((name :: P) ++ K). rewrite (HR (name :: P) K (Forall_cons name (HX _ Hin) HP) HK), (HR P K HP HK). reflexivity.
+  Qed.
+  Lemma Rl_glob X k1 k2 s1 g1 s2 g2 : Rl k1 k2 -> ~ In "" X ->
+    unflatten_and_split k1 X = (s1, g1) -> unflatten_and_split k2 X = (s2, g2) -> Rl g1 g2.
+  Proof.
+    intros (Hnd1 & Hnd2 & HR) He Hu1 Hu2.
+    split; [apply (glob_lookup k1 X [] s1 g1 He Hu1)|]. split; [apply (glob_lookup k2 X [] s2 g2 He Hu2)|].
+    intros P K HP HK. rewrite (proj1 (glob_lookup k1 X (P ++ K) s1 g1 He Hu1)), (proj1 (glob_lookup k2 X (P ++ K) s2 g2 He Hu2)).
+    rewrite (kw_last_NoDup _ k1 Hnd1), (kw_last_NoDup _ k2 Hnd2), (HR P K HP HK). reflexivity.
+  Qed.
+  Lemma Rl_side k1 k2 i1 c1 i2 c2 : Rl k1 k2 -> side_kwargs k1 = (i1, c1) -> side_kwargs k2 = (i2, c2) -> Rl i1 i2 /\ Rl c1 c2.
+  Proof.
+    intros HR E1 E2. unfold side_kwargs in E1, E2.
+    destruct (unflatten_and_split k1 ["ipsi"; "contra"]) as [s1 g1] eqn:Hu1. destruct (unflatten_and_split k2 ["ipsi"; "contra"]) as [s2 g2] eqn:Hu2.
+    injection E1 as <- <-. injection E2 as <- <-.
+    split; apply (Rl_obj ["ipsi"; "contra"] _ k1 k2 s1 g1 s2 g2 HR); try assumption; try (intros w Hw; cbn in Hw |- *; tauto); cbn; tauto.
+  Qed.
+  Lemma Rl_nested side k1 k2 s1 g1 s2 g2 ns1 ng1 ns2 ng2 : Rl k1 k2 -> (side = "noext" \/ side = "ext") ->
+    unflatten_and_split k1 X4 = (s1, g1) -> unflatten_and_split k2 X4 = (s2, g2) ->
+    unflatten_and_split (sub_kwargs side s1) ["contra"] = (ns1, ng1) -> unflatten_and_split (sub_kwargs side s2) ["contra"] = (ns2, ng2) ->
+    Rl (obj_kwargs "contra" ns1 g1) (obj_kwargs "contra" ns2 g2).
+  Proof.
+    intros (Hnd1 & Hnd2 & HR) Hside Hu1 Hu2 Hn1 Hn2.
+    assert (Hs : In side X4) by (destruct Hside as [-> | ->]; cbn; tauto).
+    assert (Hsr : In side routing) by (destruct Hside as [-> | ->]; cbn; tauto).
+    assert (Hcn : ~ In "" ["contra"]) by (cbn; intuition discriminate).
+    destruct (glob_lookup k1 X4 [] s1 g1 not_empty_X4 Hu1) as [_ Hg1nd]. destruct (glob_lookup k2 X4 [] s2 g2 not_empty_X4 Hu2) as [_ Hg2nd].
+    split; [apply kw_update_NoDup, Hg1nd|]. split; [apply kw_update_NoDup, Hg2nd|].
+    intros P K HP HK. unfold obj_kwargs.
+    destruct (sub_kwargs_lookup (sub_kwargs side s1) ["contra"] "contra" (P ++ K) ns1 ng1 Hcn Hn1 (or_introl eq_refl)) as [Hsub1 Hsnd1].
+    destruct (sub_kwargs_lookup (sub_kwargs side s2) ["contra"] "contra" (P ++ K) ns2 ng2 Hcn Hn2 (or_introl eq_refl)) as [Hsub2 Hsnd2].
+    destruct (sub_kwargs_lookup k1 X4 side ("contra" :: P ++ K) s1 g1 not_empty_X4 Hu1 Hs) as [Hss1 Hssnd1].
+    destruct (sub_kwargs_lookup k2 X4 side ("contra" :: P ++ K) s2 g2 not_empty_X4 Hu2 Hs) as [Hss2 Hssnd2].
+    rewrite !kw_get_update. rewrite (kw_get_rev_NoDup _ _ Hsnd1), (kw_get_rev_NoDup _ _ Hsnd2), Hsub1, Hsub2.
+    rewrite (kw_last_NoDup _ _ Hssnd1), (kw_last_NoDup _ _ Hssnd2), Hss1, Hss2.
+    rewrite (kw_last_NoDup _ k1 Hnd1), (kw_last_NoDup _ k2 Hnd2).
+    change (side :: "contra" :: P ++ K) with ((side :: "contra" :: P) ++ K).
+    rewrite (HR (side :: "contra" :: P) K) by (first [exact HK | constructor; [exact Hsr | constructor; [cbn; tauto | exact HP]]]).
+    rewrite (proj1 (glob_lookup k1 X4 (P ++ K) s1 g1 not_empty_X4 Hu1)), (proj1 (glob_lookup k2 X4 (P ++ K) s2 g2 not_empty_X4 Hu2)).
+    rewrite (kw_last_NoDup _ k1 Hnd1), (kw_last_NoDup _ k2 Hnd2), (HR P K HP HK). reflexivity.
+  Qed.
+  Lemma Rl_top k1 k2 K : Rl k1 k2 -> mid_resolvable m0 K = true -> kw_get K k1 = kw_get K k2.
+  Proof. intros (_ & _ & HR) HK. apply (HR [] K (Forall_nil _) HK). Qed.
 
   Lemma leaf_key_res k : In k (mid_leaf_keys m0) -> mid_resolvable m0 k = true /\ mid_resolvable m0 (tl k) = true.
   Proof.
@@ -151,9 +201,10 @@ Section Irrelevant.
     - rewrite (proj2 (memp_In k _) H). reflexivity.
     - apply orb_true_iff. left. apply orb_true_iff. left. apply orb_true_iff. right. apply memp_In. apply (in_map (@tl string)), H.
   Qed.
-  Lemma Dv_nohit Ks kwL : incl Ks (mid_leaf_keys m0) -> Dv kwL -> nohit Ks kwL.
+  Lemma Rl_agree Ks k1 k2 : incl Ks (mid_leaf_keys m0) -> Rl k1 k2 -> agree Ks k1 k2.
   Proof.
-    intros Hi [Hnd Hu]. split; [exact Hnd|]. intros k Hk. destruct (leaf_key_res k (Hi k Hk)) as [H1 H2]. split; apply Hu; assumption.
+    intros Hi HR. split; [apply HR|]. split; [apply HR|]. intros k Hk. destruct (leaf_key_res k (Hi k Hk)) as [H1 H2].
+    split; apply (Rl_top k1 k2 _ HR); assumption.
   Qed.
   Lemma like_T_incl u : like u -> incl (map fst (u_sel_items T u)) (mid_leaf_keys m0).
   Proof. intros (_ & HT & _) k Hk. change (u_sel_items T u) with (u_tumor_items u) in Hk. rewrite HT in Hk. unfold mid_leaf_keys. apply in_app_iff. left. exact Hk. Qed.
@@ -162,54 +213,40 @@ Section Irrelevant.
   Lemma like_D_incl u : like u -> incl (map fst (u_dist_items u)) (mid_leaf_keys m0).
   Proof. intros (_ & _ & _ & HD) k Hk. rewrite HD in Hk. unfold mid_leaf_keys. rewrite !in_app_iff. right. right. exact Hk. Qed.
 
-  Lemma u_sel_irrel sel u a k1 k2 : (sel = T \/ sel = L) -> like u -> Dv k1 -> Dv k2 ->
+  Lemma u_sel_irrel sel u a k1 k2 : (sel = T \/ sel = L) -> like u -> Rl k1 k2 ->
     lift_graph u (graph_set_params_sel sel (u_graph u) a k1) = lift_graph u (graph_set_params_sel sel (u_graph u) a k2).
   Proof.
-    intros Hsel Hl H1 H2.
+    intros Hsel Hl HR.
     assert (Hi : incl (map fst (u_sel_items sel u)) (mid_leaf_keys m0)) by (destruct Hsel as [-> | ->]; [apply like_T_incl | apply like_L_incl]; exact Hl).
-    rewrite (leaf_sel_nohit sel u a k1 (proj1 Hl) (Dv_nohit _ k1 Hi H1)), (leaf_sel_nohit sel u a k2 (proj1 Hl) (Dv_nohit _ k2 Hi H2)). reflexivity.
+    apply (leaf_sel_agree sel u a k1 k2 (proj1 Hl) (Rl_agree _ k1 k2 Hi HR)).
   Qed.
-  Lemma u_T_irrel u a k1 k2 : like u -> Dv k1 -> Dv k2 -> u_set_tumor_spread_params u a k1 = u_set_tumor_spread_params u a k2.
+  Lemma u_T_irrel u a k1 k2 : like u -> Rl k1 k2 -> u_set_tumor_spread_params u a k1 = u_set_tumor_spread_params u a k2.
   Proof. intros. apply (u_sel_irrel T); [left; reflexivity | assumption..]. Qed.
-  Lemma u_L_irrel u a k1 k2 : like u -> Dv k1 -> Dv k2 -> u_set_lnl_spread_params u a k1 = u_set_lnl_spread_params u a k2.
+  Lemma u_L_irrel u a k1 k2 : like u -> Rl k1 k2 -> u_set_lnl_spread_params u a k1 = u_set_lnl_spread_params u a k2.
   Proof. intros. apply (u_sel_irrel L); [right; reflexivity | assumption..]. Qed.
-  Lemma u_D_irrel u a k1 k2 : like u -> Dv k1 -> Dv k2 -> u_set_distribution_params u a k1 = u_set_distribution_params u a k2.
-  Proof.
-    intros Hl H1 H2.
-    rewrite (leaf_dist_nohit u a k1 (proj1 Hl) (Dv_nohit _ k1 (like_D_incl u Hl) H1)), (leaf_dist_nohit u a k2 (proj1 Hl) (Dv_nohit _ k2 (like_D_incl u Hl) H2)).
-    reflexivity.
-  Qed.
+  Lemma u_D_irrel u a k1 k2 : like u -> Rl k1 k2 -> u_set_distribution_params u a k1 = u_set_distribution_params u a k2.
+  Proof. intros Hl HR. apply (leaf_dist_agree u a k1 k2 (proj1 Hl) (Rl_agree _ k1 k2 (like_D_incl u Hl) HR)). Qed.
 
-  (** dicts derived from one of the two calls *)
-  Definition Fd (kwL : kwargs) : Prop := Fr kw1 kwL \/ Fr kw2 kwL.
-  Lemma Fd_Dv kwL : Fd kwL -> Dv kwL.
-  Proof. intros [H|H]; [apply Fr_Dv1 | apply Fr_Dv2]; exact H. Qed.
-  Lemma Fd_side kwB ikw ckw : Fd kwB -> side_kwargs kwB = (ikw, ckw) -> Fd ikw /\ Fd ckw.
-  Proof.
-    intros [H|H] Hs; [destruct (Fr_side kw1 kwB ikw ckw H Hs) as [A B]; split; left; assumption
-                     | destruct (Fr_side kw2 kwB ikw ckw H Hs) as [A B]; split; right; assumption].
-  Qed.
-
-  Lemma b_side_irrel sel sym b a k1 k2 : (sel = T \/ sel = L) -> like (b_ipsi b) -> like (b_contra b) -> Fd k1 -> Fd k2 ->
+  Lemma b_side_irrel sel sym b a k1 k2 : (sel = T \/ sel = L) -> like (b_ipsi b) -> like (b_contra b) -> Rl k1 k2 ->
     b_set_side_params sel sym b a k1 = b_set_side_params sel sym b a k2.
   Proof.
-    intros Hsel Hi Hc H1 H2. unfold b_set_side_params.
+    intros Hsel Hi Hc HR. unfold b_set_side_params.
     destruct (side_kwargs k1) as [i1 c1] eqn:E1. destruct (side_kwargs k2) as [i2 c2] eqn:E2.
-    destruct (Fd_side k1 i1 c1 H1 E1) as [Hi1 Hc1]. destruct (Fd_side k2 i2 c2 H2 E2) as [Hi2 Hc2].
-    rewrite (u_sel_irrel sel (b_ipsi b) a i1 i2 Hsel Hi (Fd_Dv _ Hi1) (Fd_Dv _ Hi2)).
+    destruct (Rl_side k1 k2 i1 c1 i2 c2 HR E1 E2) as [HRi HRc].
+    rewrite (u_sel_irrel sel (b_ipsi b) a i1 i2 Hsel Hi HRi).
     destruct (lift_graph (b_ipsi b) (graph_set_params_sel sel (u_graph (b_ipsi b)) a i2)) as [i' [a1|]]; [|reflexivity].
     destruct sym; [reflexivity|].
-    rewrite (u_sel_irrel sel (b_contra b) a1 c1 c2 Hsel Hc (Fd_Dv _ Hc1) (Fd_Dv _ Hc2)). reflexivity.
+    rewrite (u_sel_irrel sel (b_contra b) a1 c1 c2 Hsel Hc HRc). reflexivity.
   Qed.
-  Lemma b_D_irrel b a k1 k2 : like (b_ipsi b) -> like (b_contra b) -> Fd k1 -> Fd k2 ->
+  Lemma b_D_irrel b a k1 k2 : like (b_ipsi b) -> like (b_contra b) -> Rl k1 k2 ->
     b_set_distribution_params b a k1 = b_set_distribution_params b a k2.
   Proof.
-    intros Hi Hc H1 H2. unfold b_set_distribution_params.
+    intros Hi Hc HR. unfold b_set_distribution_params.
     destruct (side_kwargs k1) as [i1 c1] eqn:E1. destruct (side_kwargs k2) as [i2 c2] eqn:E2.
-    destruct (Fd_side k1 i1 c1 H1 E1) as [Hi1 Hc1]. destruct (Fd_side k2 i2 c2 H2 E2) as [Hi2 Hc2].
-    rewrite (u_D_irrel (b_ipsi b) a i1 i2 Hi (Fd_Dv _ Hi1) (Fd_Dv _ Hi2)).
+    destruct (Rl_side k1 k2 i1 c1 i2 c2 HR E1 E2) as [HRi HRc].
+    rewrite (u_D_irrel (b_ipsi b) a i1 i2 Hi HRi).
     destruct (u_set_distribution_params (b_ipsi b) a i2) as [i' [r|]]; [|reflexivity].
-    rewrite (u_D_irrel (b_contra b) a c1 c2 Hc (Fd_Dv _ Hc1) (Fd_Dv _ Hc2)). reflexivity.
+    rewrite (u_D_irrel (b_contra b) a c1 c2 Hc HRc). reflexivity.
   Qed.
 
   Lemma X4_routing w : In w X4 -> In w routing.
@@ -220,6 +257,10 @@ Section Irrelevant.
     unfold mid_resolvable. rewrite Hq. cbn [is_some andb]. rewrite path_eqb_refl, orb_true_r. reflexivity.
   Qed.
 
+  Section Calls.
+  Variables kw1 kw2 : kwargs.
+  Hypothesis HR0 : Rl kw1 kw2.
+
   (** ** tumour spread *)
   Lemma m_T_irrel mk a : St mk -> m_set_tumor_spread_params mk a kw1 = m_set_tumor_spread_params mk a kw2.
   Proof.
@@ -228,13 +269,9 @@ Section Irrelevant.
     destruct (SafeMidline.St_noext m0 Hsafe mk HS) as (_ & Hni & Hnc & _).
     unfold m_set_tumor_spread_params. change ["ipsi"; "noext"; "ext"; "contra"] with X4.
     destruct (unflatten_and_split kw1 X4) as [s1 g1] eqn:Hu1. destruct (unflatten_and_split kw2 X4) as [s2 g2] eqn:Hu2.
-    pose proof (Fr_refl kw1 Hnd1) as HF1. pose proof (Fr_refl kw2 Hnd2) as HF2.
-    assert (Ho1 : forall name, In name X4 -> Fd (obj_kwargs name s1 g1))
-      by (intros name Hn; left; apply (Fr_obj kw1 kw1 X4 name s1 g1 HF1 not_empty_X4 Hn (X4_routing _ Hn) Hu1)).
-    assert (Ho2 : forall name, In name X4 -> Fd (obj_kwargs name s2 g2))
-      by (intros name Hn; right; apply (Fr_obj kw2 kw2 X4 name s2 g2 HF2 not_empty_X4 Hn (X4_routing _ Hn) Hu2)).
-    assert (Hi1 : Fd (obj_kwargs "ipsi" s1 g1)) by (apply Ho1; cbn; tauto).
-    assert (Hi2 : Fd (obj_kwargs "ipsi" s2 g2)) by (apply Ho2; cbn; tauto).
+    assert (Ho : forall name, In name X4 -> Rl (obj_kwargs name s1 g1) (obj_kwargs name s2 g2))
+      by (intros name Hn; apply (Rl_obj X4 name kw1 kw2 s1 g1 s2 g2 HR0 X4_routing Hn Hu1 Hu2)).
+    assert (Hi : Rl (obj_kwargs "ipsi" s1 g1) (obj_kwargs "ipsi" s2 g2)) by (apply Ho; cbn; tauto).
     (* central *)
     assert (Hc : match ml_central mk with
                  | None => (mk, true)
@@ -247,7 +284,7 @@ Section Irrelevant.
     { destruct (ml_central mk) as [c|] eqn:Ec; [|reflexivity].
       destruct (SafeMidline.St_central m0 Hsafe mk c HS Ec) as (c0 & _ & (_ & Hci & Hcc & _)).
       unfold b_set_tumor_spread_params.
-      rewrite (b_side_irrel is_tumor_spread (b_symT c) c a _ _ (or_introl eq_refl) Hci Hcc Hi1 Hi2). reflexivity. }
+      rewrite (b_side_irrel is_tumor_spread (b_symT c) c a _ _ (or_introl eq_refl) Hci Hcc Hi). reflexivity. }
     rewrite Hc.
     destruct (match ml_central mk with
               | None => (mk, true)
@@ -256,34 +293,29 @@ Section Irrelevant.
     destruct (central_step_frame mk (fun c => ok_of (b_set_tumor_spread_params c a (obj_kwargs "ipsi" s2 g2))) m1 ok1 Ec) as (He1 & Hn1 & Hm1 & _).
     destruct ok1; cbn [negb]; [|reflexivity].
     rewrite He1.
-    rewrite (u_T_irrel (b_ipsi (ml_ext mk)) a _ _ Hei (Fd_Dv _ Hi1) (Fd_Dv _ Hi2)).
+    rewrite (u_T_irrel (b_ipsi (ml_ext mk)) a _ _ Hei Hi).
     destruct (ok_of (u_set_tumor_spread_params (b_ipsi (ml_ext mk)) a (obj_kwargs "ipsi" s2 g2))) as [ei' ok2].
     destruct ok2; cbn [negb]; [|reflexivity].
     autorewrite with mlf. rewrite Hn1.
-    rewrite (u_T_irrel (b_ipsi (ml_noext mk)) a _ _ Hni (Fd_Dv _ Hi1) (Fd_Dv _ Hi2)).
+    rewrite (u_T_irrel (b_ipsi (ml_noext mk)) a _ _ Hni Hi).
     destruct (u_set_tumor_spread_params (b_ipsi (ml_noext mk)) a (obj_kwargs "ipsi" s2 g2)) as [ni' [a3|]]; [|reflexivity].
     autorewrite with mlf. rewrite Hm1.
     destruct (ml_mixing mk) as [cur|] eqn:Emix.
-    - assert (Hc1 : Fd (obj_kwargs "contra" s1 g1)) by (apply Ho1; cbn; tauto).
-      assert (Hc2 : Fd (obj_kwargs "contra" s2 g2)) by (apply Ho2; cbn; tauto).
-      rewrite (u_T_irrel (b_contra (ml_noext mk)) a3 _ _ Hnc (Fd_Dv _ Hc1) (Fd_Dv _ Hc2)).
+    - assert (Hcc : Rl (obj_kwargs "contra" s1 g1) (obj_kwargs "contra" s2 g2)) by (apply Ho; cbn; tauto).
+      rewrite (u_T_irrel (b_contra (ml_noext mk)) a3 _ _ Hnc Hcc).
       destruct (u_set_tumor_spread_params (b_contra (ml_noext mk)) a3 (obj_kwargs "contra" s2 g2)) as [nc' [a4|]]; [|reflexivity].
-      pose proof (mixing_res mk cur HS Emix) as Hmr.
-      rewrite (proj2 (Fr_Dv1 g1 (Fr_glob kw1 kw1 X4 s1 g1 HF1 not_empty_X4 Hu1)) _ Hmr).
-      rewrite (proj2 (Fr_Dv2 g2 (Fr_glob kw2 kw2 X4 s2 g2 HF2 not_empty_X4 Hu2)) _ Hmr).
+      rewrite (Rl_top g1 g2 ["mixing"] (Rl_glob X4 kw1 kw2 s1 g1 s2 g2 HR0 not_empty_X4 Hu1 Hu2) (mixing_res mk cur HS Emix)).
       reflexivity.
     - destruct (unflatten_and_split (sub_kwargs "noext" s1) ["contra"]) as [ns1 ng1] eqn:Hn1'.
       destruct (unflatten_and_split (sub_kwargs "noext" s2) ["contra"]) as [ns2 ng2] eqn:Hn2'.
-      pose proof (Fr_nested kw1 "noext" s1 g1 ns1 ng1 Hnd1 (or_introl eq_refl) Hu1 Hn1') as HFn1.
-      pose proof (Fr_nested kw2 "noext" s2 g2 ns2 ng2 Hnd2 (or_introl eq_refl) Hu2 Hn2') as HFn2.
-      rewrite (u_T_irrel (b_contra (ml_noext mk)) a3 _ _ Hnc (Fr_Dv1 _ HFn1) (Fr_Dv2 _ HFn2)).
+      pose proof (Rl_nested "noext" kw1 kw2 s1 g1 s2 g2 ns1 ng1 ns2 ng2 HR0 (or_introl eq_refl) Hu1 Hu2 Hn1' Hn2') as HRn.
+      rewrite (u_T_irrel (b_contra (ml_noext mk)) a3 _ _ Hnc HRn).
       destruct (u_set_tumor_spread_params (b_contra (ml_noext mk)) a3 (obj_kwargs "contra" ns2 g2)) as [nc' [a4|]]; [|reflexivity].
       destruct (unflatten_and_split (sub_kwargs "ext" s1) ["contra"]) as [es1 eg1] eqn:He1'.
       destruct (unflatten_and_split (sub_kwargs "ext" s2) ["contra"]) as [es2 eg2] eqn:He2'.
-      pose proof (Fr_nested kw1 "ext" s1 g1 es1 eg1 Hnd1 (or_intror eq_refl) Hu1 He1') as HFe1.
-      pose proof (Fr_nested kw2 "ext" s2 g2 es2 eg2 Hnd2 (or_intror eq_refl) Hu2 He2') as HFe2.
+      pose proof (Rl_nested "ext" kw1 kw2 s1 g1 s2 g2 es1 eg1 es2 eg2 HR0 (or_intror eq_refl) Hu1 Hu2 He1' He2') as HRe.
       autorewrite with mlf. rewrite ?He1.
-      rewrite (u_T_irrel (b_contra (ml_ext mk)) a4 _ _ Hec (Fr_Dv1 _ HFe1) (Fr_Dv2 _ HFe2)). reflexivity.
+      rewrite (u_T_irrel (b_contra (ml_ext mk)) a4 _ _ Hec HRe). reflexivity.
   Qed.
 
   (** ** LNL spread *)
@@ -294,12 +326,12 @@ Section Irrelevant.
     - rewrite (ml_leaf_with_same mk l u' Hl) in Hu. injection Hu as <-. exact Hlk.
     - rewrite (ml_leaf_with_other mk l l' u' Hne) in Hu. apply (HI l' u Hu).
   Qed.
-  Lemma lnl_block_irrel ls : forall mk a k1 k2, Dv k1 -> Dv k2 -> leaves_like mk ->
+  Lemma lnl_block_irrel ls : forall mk a k1 k2, Rl k1 k2 -> leaves_like mk ->
     m_set_lnl_block mk ls a k1 = m_set_lnl_block mk ls a k2.
   Proof.
-    induction ls as [|l r IH]; intros mk a k1 k2 H1 H2 HI; [reflexivity|]. cbn [m_set_lnl_block].
+    induction ls as [|l r IH]; intros mk a k1 k2 HR HI; [reflexivity|]. cbn [m_set_lnl_block].
     destruct (ml_leaf mk l) as [u|] eqn:El; [|apply IH; assumption].
-    rewrite (u_L_irrel u a k1 k2 (HI l u El) H1 H2).
+    rewrite (u_L_irrel u a k1 k2 (HI l u El) HR).
     pose proof (SafeProofs.sk_uni_set_lnl u a k2) as Hsk.
     destruct (u_set_lnl_spread_params u a k2) as [u' [a'|]]; [|reflexivity]. cbn [fst] in Hsk.
     destruct r as [|l2 r2]; [reflexivity|]. apply IH; try assumption.
@@ -312,20 +344,17 @@ Section Irrelevant.
   Proof.
     intros HS. unfold m_set_lnl_spread_params. change ["ipsi"; "noext"; "ext"; "contra"] with X4.
     destruct (unflatten_and_split kw1 X4) as [s1 g1] eqn:Hu1. destruct (unflatten_and_split kw2 X4) as [s2 g2] eqn:Hu2.
-    pose proof (Fr_refl kw1 Hnd1) as HF1. pose proof (Fr_refl kw2 Hnd2) as HF2.
     pose proof (St_leaves_like mk HS) as HI.
     destruct (ml_symL mk).
-    - apply lnl_block_irrel; [apply Fr_Dv1, (Fr_glob kw1 kw1 X4 s1 g1 HF1 not_empty_X4 Hu1) | apply Fr_Dv2, (Fr_glob kw2 kw2 X4 s2 g2 HF2 not_empty_X4 Hu2) | exact HI].
-    - assert (Ho1 : forall name, In name X4 -> Dv (obj_kwargs name s1 g1))
-        by (intros name Hn; apply Fr_Dv1, (Fr_obj kw1 kw1 X4 name s1 g1 HF1 not_empty_X4 Hn (X4_routing _ Hn) Hu1)).
-      assert (Ho2 : forall name, In name X4 -> Dv (obj_kwargs name s2 g2))
-        by (intros name Hn; apply Fr_Dv2, (Fr_obj kw2 kw2 X4 name s2 g2 HF2 not_empty_X4 Hn (X4_routing _ Hn) Hu2)).
+    - apply lnl_block_irrel; [apply (Rl_glob X4 kw1 kw2 s1 g1 s2 g2 HR0 not_empty_X4 Hu1 Hu2) | exact HI].
+    - assert (Ho : forall name, In name X4 -> Rl (obj_kwargs name s1 g1) (obj_kwargs name s2 g2))
+        by (intros name Hn; apply (Rl_obj X4 name kw1 kw2 s1 g1 s2 g2 HR0 X4_routing Hn Hu1 Hu2)).
       rewrite (lnl_block_irrel [LCentralIpsi; LExtIpsi; LNoextIpsi] mk a (obj_kwargs "ipsi" s1 g1) (obj_kwargs "ipsi" s2 g2))
-        by (first [exact HI | apply Ho1; cbn; tauto | apply Ho2; cbn; tauto]).
+        by (first [exact HI | apply Ho; cbn; tauto]).
       pose proof (SafeProofs.sk_mid_set_lnl_block [LCentralIpsi; LExtIpsi; LNoextIpsi] mk a (obj_kwargs "ipsi" s2 g2)) as Hsk.
       destruct (m_set_lnl_block mk [LCentralIpsi; LExtIpsi; LNoextIpsi] a (obj_kwargs "ipsi" s2 g2)) as [m1 [a1|]]; [|reflexivity].
       cbn [andthen fst] in Hsk |- *.
-      apply lnl_block_irrel; [apply Ho1; cbn; tauto | apply Ho2; cbn; tauto|].
+      apply lnl_block_irrel; [apply Ho; cbn; tauto|].
       apply St_leaves_like. unfold SafeMidline.St. rewrite Hsk. exact HS.
   Qed.
 
@@ -337,29 +366,25 @@ Section Irrelevant.
     destruct (SafeMidline.St_noext m0 Hsafe mk HS) as (_ & Hni & Hnc & _).
     unfold m_set_distribution_params. fold (XD mk).
     destruct (unflatten_and_split kw1 (XD mk)) as [s1 g1] eqn:Hu1. destruct (unflatten_and_split kw2 (XD mk)) as [s2 g2] eqn:Hu2.
-    pose proof (Fr_refl kw1 Hnd1) as HF1. pose proof (Fr_refl kw2 Hnd2) as HF2.
-    assert (HeD : ~ In "" (XD mk)) by (intros H; apply XD_routing in H; cbn in H; intuition discriminate).
-    assert (Ho1 : forall name, In name (XD mk) -> Fd (obj_kwargs name s1 g1))
-      by (intros name Hn; left; apply (Fr_obj kw1 kw1 (XD mk) name s1 g1 HF1 HeD Hn (XD_routing mk _ Hn) Hu1)).
-    assert (Ho2 : forall name, In name (XD mk) -> Fd (obj_kwargs name s2 g2))
-      by (intros name Hn; right; apply (Fr_obj kw2 kw2 (XD mk) name s2 g2 HF2 HeD Hn (XD_routing mk _ Hn) Hu2)).
+    assert (Ho : forall name, In name (XD mk) -> Rl (obj_kwargs name s1 g1) (obj_kwargs name s2 g2))
+      by (intros name Hn; apply (Rl_obj (XD mk) name kw1 kw2 s1 g1 s2 g2 HR0 (XD_routing mk) Hn Hu1 Hu2)).
     assert (Hxe : In "ext" (XD mk)) by apply XD_props.
     assert (Hxn : In "noext" (XD mk)) by (unfold XD; cbn; tauto).
-    rewrite (b_D_irrel (ml_ext mk) a _ _ Hei Hec (Ho1 _ Hxe) (Ho2 _ Hxe)).
+    rewrite (b_D_irrel (ml_ext mk) a _ _ Hei Hec (Ho _ Hxe)).
     destruct (b_set_distribution_params (ml_ext mk) a (obj_kwargs "ext" s2 g2)) as [e' [r1|]]; [|reflexivity].
     autorewrite with mlf.
-    rewrite (b_D_irrel (ml_noext mk) a _ _ Hni Hnc (Ho1 _ Hxn) (Ho2 _ Hxn)).
+    rewrite (b_D_irrel (ml_noext mk) a _ _ Hni Hnc (Ho _ Hxn)).
     destruct (b_set_distribution_params (ml_noext mk) a (obj_kwargs "noext" s2 g2)) as [n' [r2|]]; [|reflexivity].
     autorewrite with mlf.
     assert (Hk : forall k, ml_unknown mk = Some k ->
               b_set_distribution_params k a (obj_kwargs "unknown" s1 g1) = b_set_distribution_params k a (obj_kwargs "unknown" s2 g2)).
     { intros k Ek. destruct (SafeMidline.St_unknown m0 Hsafe mk k HS Ek) as (k0 & _ & (_ & Hki & Hkc & _)).
       assert (Hxk : In "unknown" (XD mk)) by (unfold XD; rewrite Ek; destruct (ml_central mk); cbn; tauto).
-      apply b_D_irrel; [exact Hki | exact Hkc | apply Ho1, Hxk | apply Ho2, Hxk]. }
+      apply b_D_irrel; [exact Hki | exact Hkc | apply Ho, Hxk]. }
     destruct (ml_central mk) as [c|] eqn:Ec.
     - destruct (SafeMidline.St_central m0 Hsafe mk c HS Ec) as (c0 & _ & (_ & Hci & Hcc & _)).
       assert (Hxc : In "central" (XD mk)) by (unfold XD; rewrite Ec; cbn; tauto).
-      rewrite (b_D_irrel c a _ _ Hci Hcc (Ho1 _ Hxc) (Ho2 _ Hxc)).
+      rewrite (b_D_irrel c a _ _ Hci Hcc (Ho _ Hxc)).
       destruct (b_set_distribution_params c a (obj_kwargs "central" s2 g2)) as [c' [r3|]]; cbv beta iota; [|reflexivity].
       autorewrite with mlf. destruct (ml_unknown mk) as [k|] eqn:Ek; [|reflexivity].
       rewrite (Hk k eq_refl). reflexivity.
@@ -387,24 +412,147 @@ Section Irrelevant.
   Proof.
     unfold m_set_params. destruct (m_get_params m0 true) as [ps|]; [|reflexivity].
     destruct (popat a (Z.of_nat (length ps) - 1)) as [[before last] after].
-    rewrite (proj2 (Fr_Dv1 kw1 (Fr_refl kw1 Hnd1)) _ midext_res), (proj2 (Fr_Dv2 kw2 (Fr_refl kw2 Hnd2)) _ midext_res).
-    destruct last as [v|]; cbn [option_map].
+    rewrite (Rl_top kw1 kw2 _ HR0 midext_res).
+    destruct (match kw_get ["midext"; "prob"] kw2 with Some v => Some v | None => last end) as [v|]; cbn [option_map].
     - destruct (check_unit v) as [q|]; cbn [option_map]; [|reflexivity].
       apply m_chain_irrel. apply SafeProofs.sk_mid_with_midext.
     - apply m_chain_irrel. reflexivity.
   Qed.
+  End Calls.
 End Irrelevant.
 
-Lemma mid_kw_unknown_nil m : mid_kw_unknown m [] = true.
-Proof. reflexivity. Qed.
-Lemma mid_kw_unknown_app m k1 k2 : mid_kw_unknown m (k1 ++ k2) = mid_kw_unknown m k1 && mid_kw_unknown m k2.
-Proof. unfold mid_kw_unknown. rewrite map_app, forallb_app. reflexivity. Qed.
-
-Theorem mid_unknown_names_ignored : C10_mid_unknown_names_ignored_stmt.
+Theorem mid_unknown_names_dropped : C10_mid_unknown_names_dropped_stmt.
 Proof.
-  intros m a kw Hsafe Hnd Hunk. apply (m_set_params_irrel m kw [] Hsafe Hnd (NoDup_nil _) Hunk (mid_kw_unknown_nil m)).
+  intros m a kw junk Hsafe Hnd Hunk. apply (m_set_params_irrel m Hsafe (kw ++ junk) kw (Rl_junk m kw junk Hnd Hunk)).
 Qed.
+Theorem mid_unknown_names_ignored : C10_mid_unknown_names_ignored_stmt.
+Proof. intros m a kw Hsafe Hnd Hunk. apply (mid_unknown_names_dropped m a [] kw Hsafe Hnd Hunk). Qed.
 Theorem mid_unknown_names_ignored_got : C10_mid_unknown_names_ignored_got_stmt.
 Proof.
   intros m a kw Hsafe Hnd Hunk r1 r2. subst r1 r2. rewrite (mid_unknown_names_ignored m a kw Hsafe Hnd Hunk). split; reflexivity.
+Qed.
+
+(** * 3. Surplus positional arguments *)
+(** the result of a setter whose argument list is extended by [extra] behind the arguments it
+    consumes: the same object, [extra] appended to the returned rest *)
+Definition ext_res {S} (extra : args) (r : S * option args) : S * option args :=
+  (fst r, option_map (fun x => x ++ extra) (snd r)).
+Lemma ok_of_ext {S} extra (r : S * option args) : ok_of (ext_res extra r) = ok_of r.
+Proof. destruct r as [s [x|]]; reflexivity. Qed.
+Lemma skipn_app_le {A} n (a extra : list A) : n <= length a -> skipn n (a ++ extra) = skipn n a ++ extra.
+Proof. intros H. rewrite skipn_app. replace (n - length a) with 0 by lia. reflexivity. Qed.
+Lemma plan_args_app lk ps : forall a extra, length ps <= length a -> plan lk ps (a ++ extra) = plan lk ps a.
+Proof.
+  induction ps as [|[k old] r IH]; intros a extra Hl; [reflexivity|]. destruct a as [|x a]; [cbn in Hl; lia|].
+  cbn [plan app hd_error tl]. rewrite IH by (cbn in Hl; lia). reflexivity.
+Qed.
+
+(** ** Edges *)
+Lemma edge_set_params_app tri e a extra kw : length (edge_params tri e) <= length a ->
+  edge_set_params tri e (a ++ extra) kw = ext_res extra (edge_set_params tri e a kw).
+Proof.
+  rewrite edge_params_cases. unfold edge_set_params, ext_res.
+  destruct (is_growth e) eqn:Eg.
+  - rewrite (growth_no_micro tri e Eg). cbn [length]. intros Hl. destruct a as [|x a]; [cbn in Hl; lia|]. cbn [app popfirst].
+    destruct (check_unit _); reflexivity.
+  - destruct (has_micro tri e); cbn [length]; intros Hl.
+    + destruct a as [|x [|y a]]; try (cbn in Hl; lia). cbn [app popfirst].
+      destruct (check_unit _); [|reflexivity]. destruct (check_unit _); reflexivity.
+    + destruct a as [|x a]; [cbn in Hl; lia|]. cbn [app popfirst]. destruct (check_unit _); reflexivity.
+Qed.
+Lemma edge_set_params_rest tri e a kw e' a' : edge_set_params tri e a kw = (e', Some a') -> a' = skipn (length (edge_params tri e)) a.
+Proof.
+  intros H. destruct (all_unit (plan (fun t => kw_get t kw) (edge_params tri e) a)) as [qs|] eqn:E.
+  - rewrite (edge_set_params_ok tri e a kw qs E) in H. injection H as _ <-. reflexivity.
+  - pose proof (edge_set_params_fail tri e a kw E) as Hf. rewrite H in Hf. discriminate.
+Qed.
+Lemma set_edges_for_app tri sel split glob es : forall a extra, length (sel_params tri sel es) <= length a ->
+  set_edges_for tri sel split glob es (a ++ extra) = ext_res extra (set_edges_for tri sel split glob es a).
+Proof.
+  induction es as [|e r IH]; intros a extra Hl; [reflexivity|]. rewrite sel_params_cons, app_length in Hl. cbn [set_edges_for].
+  destruct (sel e).
+  - rewrite pre_length in Hl. rewrite edge_set_params_app by lia.
+    destruct (edge_set_params tri e a (obj_kwargs (e_name e) split glob)) as [e' [a'|]] eqn:E; unfold ext_res at 1; cbn [fst snd option_map]; [|reflexivity].
+    apply edge_set_params_rest in E. rewrite IH by (rewrite E, skipn_length; lia).
+    destruct (set_edges_for tri sel split glob r a') as [r' o]. reflexivity.
+  - cbn [length] in Hl. rewrite IH by lia. destruct (set_edges_for tri sel split glob r a) as [r' o]. reflexivity.
+Qed.
+Lemma u_sel_app sel u a extra kwL : length (u_sel_items sel u) <= length a ->
+  lift_graph u (graph_set_params_sel sel (u_graph u) (a ++ extra) kwL) = ext_res extra (lift_graph u (graph_set_params_sel sel (u_graph u) a kwL)).
+Proof.
+  intros Hl. unfold lift_graph, graph_set_params_sel.
+  destruct (unflatten_and_split kwL (map e_name (filter sel (g_edges (u_graph u))))) as [split glob].
+  rewrite set_edges_for_app by exact Hl.
+  destruct (set_edges_for (g_tri (u_graph u)) sel split glob (g_edges (u_graph u)) a) as [es o]. reflexivity.
+Qed.
+
+(** ** Distributions *)
+Lemma dist_set_params_app maxt d a extra kw : length (dist_local d) <= length a ->
+  dist_set_params maxt d (a ++ extra) kw = ext_res extra (dist_set_params maxt d a kw).
+Proof.
+  destruct d as [p|f kws]; [reflexivity|]. cbn [dist_local dist_set_params]. rewrite map_length. intros Hl.
+  rewrite !dist_assign_spec. rewrite plan_args_app by (rewrite map_length; exact Hl). rewrite skipn_app_le by exact Hl.
+  destruct (all_vals _) as [kws'|]; [|reflexivity]. destruct (fam_weights f maxt kws'); reflexivity.
+Qed.
+Lemma dist_set_params_rest maxt d a kw d' a' : dist_set_params maxt d a kw = (d', Some a') -> a' = skipn (length (dist_local d)) a.
+Proof.
+  intros H. pose proof (dist_set_params_spec maxt d a kw) as Hs. destruct (dist_put maxt d _) as [d''|].
+  - rewrite Hs in H. injection H as _ <-. reflexivity.
+  - rewrite H in Hs. discriminate.
+Qed.
+Lemma set_dists_for_app maxt split glob ds : forall a extra, length (dists_items ds) <= length a ->
+  set_dists_for maxt split glob ds (a ++ extra) = ext_res extra (set_dists_for maxt split glob ds a).
+Proof.
+  induction ds as [|[t d] r IH]; intros a extra Hl; [reflexivity|].
+  cbn [dists_items flat_map fst snd] in Hl. fold (dists_items r) in Hl. rewrite app_length, pre_length in Hl. cbn [set_dists_for].
+  destruct d as [p|f kws].
+  - cbn [dist_local length] in Hl. rewrite IH by lia. destruct (set_dists_for maxt split glob r a) as [r' o]. reflexivity.
+  - rewrite dist_set_params_app by lia.
+    destruct (dist_set_params maxt (Param f kws) a (obj_kwargs t split glob)) as [d' [a'|]] eqn:E; unfold ext_res at 1; cbn [fst snd option_map]; [|reflexivity].
+    apply dist_set_params_rest in E. rewrite IH by (rewrite E, skipn_length; lia).
+    destruct (set_dists_for maxt split glob r a') as [r' o]. reflexivity.
+Qed.
+Lemma u_D_app u a extra kwL : length (u_dist_items u) <= length a ->
+  u_set_distribution_params u (a ++ extra) kwL = ext_res extra (u_set_distribution_params u a kwL).
+Proof.
+  intros Hl. unfold u_set_distribution_params. destruct (unflatten_and_split kwL (map fst (u_dists u))) as [split glob].
+  rewrite set_dists_for_app by exact Hl. destruct (set_dists_for (u_maxt u) split glob (u_dists u) a) as [ds o]. reflexivity.
+Qed.
+Lemma u_D_rest u a kw u' r : u_names_ok u = true -> u_set_distribution_params u a kw = (u', Some r) -> r = skipn (length (u_dist_items u)) a.
+Proof.
+  intros Hn H. pose proof (u_set_dist_spec u kw Hn a) as Hs. destruct (dists_put _ _ _) as [ds'|].
+  - rewrite Hs in H. injection H as _ <-. reflexivity.
+  - rewrite H in Hs. discriminate.
+Qed.
+
+(** ** Bilateral steps *)
+Lemma b_side_app sel (sym : bool) b a extra kw : u_names_ok (b_ipsi b) = true ->
+  length (u_sel_items sel (b_ipsi b)) + (if sym then 0 else length (u_sel_items sel (b_contra b))) <= length a ->
+  b_set_side_params sel sym b (a ++ extra) kw = ext_res extra (b_set_side_params sel sym b a kw).
+Proof.
+  intros Hn Hl. unfold b_set_side_params. destruct (side_kwargs kw) as [ikw ckw].
+  rewrite u_sel_app by lia.
+  destruct (lift_graph (b_ipsi b) (graph_set_params_sel sel (u_graph (b_ipsi b)) a ikw)) as [i' [a1|]] eqn:E; unfold ext_res at 1; cbn [fst snd option_map]; [|reflexivity].
+  destruct (leaf_step_inv sel (b_ipsi b) a ikw i' a1 Hn E) as (qs & _ & _ & ->).
+  destruct sym.
+  - destruct (u_sync sel i' (b_contra b)) as [c' ok]. destruct ok; reflexivity.
+  - rewrite u_sel_app by (rewrite skipn_length; lia).
+    destruct (lift_graph (b_contra b) (graph_set_params_sel sel (u_graph (b_contra b)) (skipn (length (u_sel_items sel (b_ipsi b))) a) ckw)) as [c' o].
+    reflexivity.
+Qed.
+Lemma b_D_app b a extra kw : length (u_dist_items (b_ipsi b)) <= length a -> length (u_dist_items (b_contra b)) <= length a ->
+  b_set_distribution_params b (a ++ extra) kw = ext_res extra (b_set_distribution_params b a kw).
+Proof.
+  intros Hi Hc. unfold b_set_distribution_params. destruct (side_kwargs kw) as [ikw ckw].
+  rewrite !u_D_app by assumption.
+  destruct (u_set_distribution_params (b_ipsi b) a ikw) as [i' [r|]]; unfold ext_res at 1; cbn [fst snd option_map]; [|reflexivity].
+  destruct (u_set_distribution_params (b_contra b) a ckw) as [c' o]. reflexivity.
+Qed.
+Lemma b_D_rest b a kw b' r : u_names_ok (b_contra b) = true -> b_set_distribution_params b a kw = (b', Some r) ->
+  r = skipn (length (u_dist_items (b_contra b))) a.
+Proof.
+  intros Hn H. unfold b_set_distribution_params in H. destruct (side_kwargs kw) as [ikw ckw].
+  destruct (u_set_distribution_params (b_ipsi b) a ikw) as [i' [ri|]]; [|discriminate].
+  destruct (u_set_distribution_params (b_contra b) a ckw) as [c' o] eqn:E. injection H as _ ->.
+  apply (u_D_rest (b_contra b) a ckw c' r Hn E).
 Qed.
